@@ -106,3 +106,31 @@ pub fn any_grammar_ext() -> BoxedStrategy<GrammarSpec> {
 pub fn any_grammar_core_ext() -> BoxedStrategy<GrammarSpec> {
     prop_oneof![8 => any_grammar(), 1 => gen_like_grammar(true)].boxed()
 }
+
+/// Lark grammars with token references that exist in every vocabulary of the harness: `<[id]>` and `<[a-b]>` over
+/// ordinary byte tokens (ids below 256 are the byte values), `<|eos|>` (every vocabulary names its first special so),
+/// in sequences and in alternatives whose references overlap each other or a text alternative.  For the relational
+/// checks (mask vs. commit, state vs. fresh replay, rollback): the reference sets themselves are C19's business.
+pub fn token_ref_grammar() -> BoxedStrategy<GrammarSpec> {
+    let lit = prop_oneof![Just("\"a\""), Just("\"b\""), Just("\"d\""), Just("\"x\""), Just("\"y\""), Just("\"ab\""), Just("/[a-e]/"), Just("/[x-z]+/")];
+    let rf = prop_oneof![
+        3 => (97u32..106).prop_map(|i| format!("<[{}]>", i)),
+        3 => (97u32..104, 0u32..6).prop_map(|(a, d)| format!("<[{}-{}]>", a, a + d)),
+        1 => (97u32..104, 0u32..4).prop_map(|(a, d)| format!("<[^0-{},{}-255]>", a - 1, a + d + 1)),
+        2 => Just("<|eos|>".to_string()),
+    ];
+    let seg = prop_oneof![3 => lit.prop_map(|s| s.to_string()), 4 => rf];
+    let seq = proptest::collection::vec(seg, 1..5).prop_map(|v| v.join(" "));
+    prop_oneof![
+        2 => seq.clone().prop_map(|s| format!("start: {}\n", s)),
+        3 => (seq.clone(), seq.clone()).prop_map(|(a, b)| format!("start: {} | {}\n", a, b)),
+        1 => (seq.clone(), seq.clone(), seq).prop_map(|(a, b, c)| format!("start: {} ( {} | {} )\n", a, b, c)),
+        1 => Just("start: \"a\" <[100]> \"b\"\n".to_string()),
+        1 => Just("start: <[97-101]> \"x\" | <[99-105]> \"y\"\n".to_string()),
+        1 => Just("start: <[100]> \"x\" | \"d\" \"y\"\n".to_string()),
+        1 => Just("start: \"a\" <|eos|> \"b\"\n".to_string()),
+        1 => Just("start: (\"a\" | <[98]>)* <|eos|>\n".to_string()),
+    ]
+    .prop_map(GrammarSpec::Lark)
+    .boxed()
+}
